@@ -570,8 +570,10 @@ func genC01Calls(r *kernel.RNG, tier string, i int) interface{} {
 	// identifiers are not ASCII only: declared names, fields and parameters with multi-byte runes
 	sc.Texts = append(sc.Texts,
 		"(struct Größe [(field größe: int64 e:0) (field 長さ: string e:1) (field x: float64 e:2)]) (def gö (Größe größe: 1 長さ: \"é\")) (func tfü [größe:int64 長さ:string] [länge:int64] (return größe))",
-		"(def tmi (tm a: 1)) (def plainh (hash a: 1))")
-	declared := []string{"tf1", "tf2", "tf3", "Ts", "ts", "tm", "pq.G", "pq.V", "lzf", "vf", "mq", "ts.A", "pq", "Größe", "gö", "tfü", "gö.長さ", "tmi", "_ls"}
+		"(def tmi (tm a: 1)) (def plainh (hash a: 1))",
+		// a macro that generates a symbol while it is being expanded (in the interpreter the expansion runs in)
+		"(defmac mgs [] (let [s (gensym)] ^(quote ~s))) (defmac mgp [p] (let [s (gensym p)] ^(quote ~s)))")
+	declared := []string{"tf1", "tf2", "tf3", "Ts", "ts", "tm", "pq.G", "pq.V", "lzf", "vf", "mq", "ts.A", "pq", "Größe", "gö", "tfü", "gö.長さ", "tmi", "_ls", "mgs", "mgp", "gensym"}
 	fieldTargets := []string{"ts.A", "ts.B", "gö.größe", "gö.長さ", "gö.x", "tmi.a", "plainh.a", "pq.V", "ts.Nosuch"}
 	k := 24
 	lo := (i * 4) % len(names)
@@ -646,11 +648,35 @@ func genC01Calls(r *kernel.RNG, tier string, i int) interface{} {
 			}
 		}
 		sc.Texts = append(sc.Texts, t)
+		if r.Chance(0.08) {
+			// the same call assembled by a macro from a name given as a string (names no script text can spell included)
+			sc.Texts = append(sc.Texts, fmt.Sprintf("(defmac mz9 [] (list (str2sym %q) %s)) (mz9)", n, strings.Join(args, " ")))
+		}
+	}
+	// parameter lists from a small alphabet, for every form that takes one
+	formalAlphabet := []string{"a", "b", "&", "#a", "a:", "a:int64", "1", `"s"`, "[]", "nil", "&", "a", "%a", "(a)", "b:string", "..."}
+	for j, nf := 0, r.Range(1, 3); j < nf; j++ {
+		var fs []string
+		for q, m := 0, r.Intn(4); q < m; q++ {
+			fs = append(fs, r.Pick(formalAlphabet))
+		}
+		formals := "[" + strings.Join(fs, " ") + "]"
+		sc.Texts = append(sc.Texts, fmt.Sprintf(r.Pick([]string{"(fn %s 1)", "(defn ff9 %s 1)", "(defmac mm9 %s 1)", "(func fz9 %s [] 1)", "(func fy9 [a:int64] %s 1)", "((fn %s 1) 1 2)", "(method [p: (* Ts)] mt9 %s [] 1)", "(let %s 1)", "(letseq %s 1)", "(for %s 1)", "(mdef %s)"}), formals))
+	}
+	// a variable of every type the interpreter knows by name, then used as a value
+	if i%3 == 1 {
+		tn := names[(i*7)%len(names)]
+		sc.Texts = append(sc.Texts, fmt.Sprintf("(var vq9 %s)", tn), "(str vq9)", "(def vr9 vq9)", "[vq9 vq9]", "(== vq9 vq9)")
+	}
+	if cyclicOnly {
+		// values that contain themselves as keys
+		sc.Texts = append(sc.Texts, fmt.Sprintf("(def hk9 (hash %s 1 %s 2))", c01Cyclic[1], c01Cyclic[3]), "(hpair hk9 1)", "(str hk9)", "(str (keys hk9))", "(hget hk9 "+c01Cyclic[1]+" 0)",
+			"(def hk8 (hash (let [ca [1 2]] (aset ca 0 ca) ca) 1 (let [cb [1 2]] (aset cb 0 cb) cb) 2))", "(hpair hk8 1)", "(str hk8)")
 	}
 	return sc
 }
 
-var c01Containers = []string{"[1 2 3]", "[]", `"abc"`, `""`, "(hash a: 1 b: 2)", "(hash)", "(list 1 2 3)", "[[1 2] [3 4]]", "(raw)", "nil", "5", "(hash 0 10 1 11)", `["a" "b"]`, "[1.5 2.5]"}
+var c01Containers = []string{"(append [1 2 3] 4)", "(append (append [1] 2) 3)", "[1 2 3]", "[]", `"abc"`, `""`, "(hash a: 1 b: 2)", "(hash)", "(list 1 2 3)", "[[1 2] [3 4]]", "(raw)", "nil", "5", "(hash 0 10 1 11)", `["a" "b"]`, "[1.5 2.5]"}
 var c01Indexes = []string{"0", "1", "2", "3", "-1", "-2", "4", "100", "9223372036854775807", "-9223372036854775808", "1.5", `"x"`, "nil", "%a", "a:", "[0]", "[0 1]", "true", "'c'", "(+ 1 1)", "1ULL"}
 
 // genC01Index: reads, writes and slices of containers at boundary and ill-typed indexes, in prefix and infix syntax
